@@ -769,7 +769,7 @@ pub async fn handle_changes(
                     verif_dropped = verif_change_json(&dropped_change);
                 }
                 for v in dropped_change.versions() {
-                    if let Entry::Occupied(mut entry) = seen.entry((change.actor_id, v)) {
+                    if let Entry::Occupied(mut entry) = seen.entry((dropped_change.actor_id, v)) {
                         if let Some(seqs) = dropped_change.seqs().cloned() {
                             entry.get_mut().remove(seqs);
                         } else {
